@@ -43,5 +43,5 @@ with cf.ThreadPoolExecutor(j) as ex:
         if not new:
             print('silent  %-14s %-40s %s' % (t, f, note)); continue
         print('ALARM   %-14s %-40s %s' % (t, f, note))
-        for r, k, v in new[:6]: print('          ', r, k[:90], v[:120])
+        for r, k, v in new[:60]: print('          ', r, k[:90], v[:120])
         sys.stdout.flush()
